@@ -926,3 +926,23 @@ func Harness_app_odd_names_balance() {
 	verifAssert("quantity:both-foods-listed", has(q, 2) && has(q, 1.5))
 	verifAssert("balance-leaf:both-foods-listed-with-their-own-amounts", has(b, 2) && has(b, 1.5))
 }
+
+// Harness_app_stats_twice: `stats` twice on the same files - a long log and a recipe book with
+// a malformed line: the same status and output both times, whatever the schedule of any
+// goroutine the command may start (two schedules are explored per run: at once, when waited for).
+func Harness_app_stats_twice() {
+	logText := ""
+	for d := 0; d < 120; d++ {
+		logText += "2021/0" + string(rune('1'+d/28)) + "/" + string(rune('0'+(d%28+1)/10)) + string(rune('0'+(d%28+1)%10)) + ":\n  f0: 1\n"
+	}
+	dbText := "f0:\n  x: 2\nf1:\n  x: two\nf2:\n  y: 1\n"
+	if verifChoose("book", 2) == 1 {
+		dbText = hAppDB
+	}
+	args := []string{"--logfile=" + verifFile("log", logText), "--database=" + verifFile("db", dbText), "--today=2021/06/01", "stats"}
+	o1, e1 := hApp(-1, args...)
+	o2, e2 := hApp(-1, args...)
+	verifCover("ran-twice")
+	verifAssert("same-error-status", (e1 == nil) == (e2 == nil))
+	verifAssert("same-output", o1 == o2)
+}
